@@ -105,20 +105,32 @@ claim("C05",
   "quotes re-lexes character for character and the lexer resumes after the closing quote, guard no_bs_nl), raw_in_dq / raw_in_dq_quote_breaks, docstring_safe / docstring_escaped_safe (helpers.jinja "
   "safe_docstring yields one literal for every content without a triple quote; escaped text never has one), repr_roundtrip_printable, lit_site (an inert image between plain template text inside one "
   "literal: composition lemma by induction), identifier_slot_safe (PythonIdentifier / ClassName / kebab_case / enum-key images contain, inside ASCII, only word characters and '-': Unicode case-map facts "
-  "re-proved by vm_compute on regenerated tables). Site level: the table gen_sites (slot x file kind x lexical context x sanitiser class) is REGENERATED ON EVERY RUN from the generator's output "
+  "re-proved by vm_compute on regenerated tables). Site level: the table gen_sites (slot x file kind x lexical context x sanitiser class, ~500 rows) is REGENERATED ON EVERY RUN from the generator's output "
   "(canary probes, tokenize / TOML scanner); all_sites_safe : forallb site_safe gen_sites = true by vm_compute; site_sound : for every acceptable site and every payload inside its computable slot_guard the "
-  "emitted text re-lexes (PyLit lexers) to exactly the payload / the sanitised identifier with the lexer resuming after the literal. Sites that are safe only on a narrow domain are listed one by one in "
-  "Sites.known_narrow with a finding id and a ..._refuted witness (desc_code_exec, meta_injection, path_injection, content_type_injection, const_fstring; class-level: name_backslash, nul_char, "
-  "linesep_newline, default_not_verbatim, xid_gap, raw_fallback for the raw-name-fallback sanitiser class SSanitize; validated path-parameter names are class SRejects); every named thing is probed once per schema SHAPE that takes a different parser path (inline scalar/object/enum, direct $ref to model/enum, allOf/oneOf/anyOf wrappers, unions, arrays of $ref/inline, allOf members, additionalProperties/items objects, parameters per location incl. path-item and component parameters) and colliding name pairs exercise PythonIdentifier(skip_snake_case=True); a new raw interpolation / comment / code context / unescaped path makes a regenerated row unacceptable and the obligation all_sites_safe fails. "
+  "emitted text re-lexes (PyLit lexers) to exactly the payload / the sanitised identifier / a plain number, with the lexer resuming after the literal. The slot atlas has one slot per named thing and per schema "
+  "SHAPE that takes a different parser path (inline scalar/object/enum, direct $ref to model/enum, allOf/oneOf/anyOf wrappers, unions, arrays, allOf members, additionalProperties/items objects, parameters per "
+  "location incl. path-item and component parameters), colliding name pairs (raw-name fallback PythonIdentifier(skip_snake_case=True), class SSanitize), validated path-parameter names (SRejects), enum values "
+  "whose first character is not a letter (the positional VALUE_<i> branch of values_from_list: separate sites), and default values of EVERY kind that turns a string default into code (date, date-time, uuid, "
+  "string, enum member, const, int/float given as strings, union members) in models and in query/header/cookie parameters, classified by HOW the text is emitted: repr-emitted literals and normalised numbers "
+  "are acceptable, a HAND-QUOTED default is not, for any kind (handquoted_default_refuted; a preceding isoparse()/UUID() validation is not a guarantee). Sites that are safe only on a narrow domain are listed "
+  "one by one in Sites.known_narrow with a finding id and a ..._refuted witness (desc_code_exec, meta_injection, path_injection, content_type_injection, const_fstring, literal_enum_default_docstring; "
+  "class-level: name_backslash, nul_char, linesep_newline, default_not_verbatim, xid_gap, raw_fallback); a new raw interpolation / comment / code context / unescaped path / hand-quoted default makes a "
+  "regenerated row unacceptable and the obligation all_sites_safe fails. "
   "Correspondence (evaluated inside Coq): escape_dq, py_repr, lex_string, safe_docstring (against the REAL Jinja macro), lex_docstring, TOML guard vs utils.remove_string_escapes / repr / tokenize+"
-  "ast.literal_eval / tomllib on ~5.8k hostile cases per quick run (61k thorough); the site table vs a second, differently shaped probe document. Oracle: ~970 generated trees per quick run (110 emitted slots x 15 payload "
-  "classes x metadata flavours / option settings - in the quick tier one seed-chosen representative per site signature gets all classes, every other slot four (double quote, triple quote, trailing backslash, symbols) - packed absent slots, random multi-slot combinations; ~4.4k trees thorough): compile()/tomllib, AST shape equal to the canary-only rendering, payload marker only inside string "
-  "tokens or sanitised identifiers, run-time-meaningful constants equal to the document text; every failure is classified by evaluating the Coq slot_guard of the sites of that slot in that file.",
-  "Trusted: Coq kernel+vm_compute; translator gen_sites.py and the probe grammar harness/lib/probe.py (slot coverage = 191 probed slots, 436 table rows; 29 pydantic str positions it does not fill are listed in evidence as "
-  "unreached_fields); the sanitiser class of a site is inferred from one benign-specials probe and confirmed only by the oracle; CPython's tokenizer beyond string literals, f-string replacement fields "
-  "(modelled as: a brace in document text is code), Jinja wordwrap/indent (assumed whitespace-only) and octal/\\x/\\u/\\N escape decoding are not modelled (lexer answers None; repr round trip proved for "
-  "printable strings only); identifier VALIDITY of ClassName / enum keys rests on C09 (here only the character-class theorem); Jinja's indent filter is modelled only through the no_linesep guard conjunct; "
-  "stage C workers use Jinja's bytecode cache (checked byte-identical to an uncached rendering each run).",
+  "ast.literal_eval / tomllib on ~6k hostile cases per quick run (61k thorough); the site table vs a second, differently shaped probe document. Oracle: ~1350 generated trees per quick run (emitted slots x 15 "
+  "suffix payload classes - in the quick tier one seed-chosen representative per site signature gets all classes, every other slot four - ; every enum-value slot x 6 FIRST-CHARACTER payloads (digit, quote, "
+  "backslash, space, brace, an import-time sentinel) under class-enum and literal-enum rendering; every validated-format default slot x validator-passing hostile values (YYYY-MM-DD<c>HH:MM:SS with c in "
+  "quote/double quote/backslash/newline/NUL/brace/#; uuid with braces, urn:, surrounding newline/tab/U+2028, '+'; numbers with whitespace, sign, exponent); packed absent slots; random multi-slot "
+  "combinations): compile()/tomllib, AST shape equal to the canary-only rendering, payload marker only inside string tokens or sanitised identifiers, every Enum member / Literal[...] element / value-set element "
+  "a plain ast.Constant, stand-alone enum modules executed in a fresh interpreter must not run document text (import-exec sentinel), run-time-meaningful constants equal to the document text, literals handed to "
+  "isoparse()/UUID() equal to the document text and numeric defaults equal to the validator's reading; every failure is classified by evaluating the Coq slot_guard of the sites of that slot in that file.",
+  "Trusted: Coq kernel+vm_compute; translator gen_sites.py and the probe grammar harness/lib/probe.py (slot coverage = the probed slots listed in GenSites.v; pydantic str positions it does not fill are listed in "
+  "evidence as unreached_fields); the sanitiser class of a site is inferred from one benign-specials probe (per kind for validated-format slots) and confirmed only by the oracle; CPython's tokenizer beyond "
+  "string literals, f-string replacement fields (modelled as: a brace in document text is code), Jinja wordwrap (assumed whitespace-only; indent only through the no_linesep guard conjunct) and "
+  "octal/\\x/\\u/\\N escape decoding are not modelled (lexer answers None; repr round trip proved for printable strings only); number normalisation is modelled only on plain decimals; bool/None defaults emit "
+  "constants and are not traced; identifier VALIDITY of ClassName / enum keys rests on C09 (here only the character-class theorem); validator alphabets (isoparse, UUID, path-parameter regex, enum lookup) are "
+  "stated in Sites.v comments and checked by the oracle, not proved; stage C workers use Jinja's bytecode cache (checked byte-identical to an uncached rendering each run). Repaired finding: "
+  "uuid_default_whitespace (fc6e947).",
   "Coq proof (induction on strings + reflection on a regenerated site table) + in-Coq differential correspondence + generated-tree oracle classified by the Coq guard", "4/C05")
 
 claim("C12",
